@@ -79,49 +79,65 @@ func Drain(sr *schema.StreamReader[M]) ([]M, error) {
 	}
 }
 
-// nativeLambda builds a lambda that natively implements exactly the paradigms in `native`
-// for the deterministic function f, splitting streamed output by `pat`.
-func nativeLambda(f func(ctx context.Context, in M) (M, error), native string, pat []int, produce func([]M) *schema.StreamReader[M]) *compose.Lambda {
+// nativeLambdaG builds a lambda that natively implements exactly the paradigms in `native`
+// for the deterministic function f : I → O; streaming forms split their output with chunkO
+// and see the concatenation (concatI) of their input chunks.
+func nativeLambdaG[I, O any](f func(ctx context.Context, in I) (O, error), native string,
+	chunkO func(O) []O, concatI func([]I) I, produce func([]O) *schema.StreamReader[O]) *compose.Lambda {
 	if native == "" || native == "i" {
 		return compose.InvokableLambda(f)
 	}
 	if produce == nil {
-		produce = func(cs []M) *schema.StreamReader[M] { return schema.StreamReaderFromArray(cs) }
+		produce = func(cs []O) *schema.StreamReader[O] { return schema.StreamReaderFromArray(cs) }
 	}
-	var fi compose.Invoke[M, M, lambdaOpt]
-	var fs compose.Stream[M, M, lambdaOpt]
-	var fc compose.Collect[M, M, lambdaOpt]
-	var ft compose.Transform[M, M, lambdaOpt]
-	collectIn := func(in *schema.StreamReader[M]) (M, error) {
-		cs, err := Drain(in)
-		if err != nil {
-			return nil, err
+	var fi compose.Invoke[I, O, lambdaOpt]
+	var fs compose.Stream[I, O, lambdaOpt]
+	var fc compose.Collect[I, O, lambdaOpt]
+	var ft compose.Transform[I, O, lambdaOpt]
+	collectIn := func(in *schema.StreamReader[I]) (I, error) {
+		defer in.Close()
+		var cs []I
+		for {
+			c, err := in.Recv()
+			if err == io.EOF {
+				break
+			}
+			if err != nil {
+				var z I
+				return z, err
+			}
+			cs = append(cs, c)
 		}
-		return ConcatChunks(cs), nil
+		if len(cs) == 0 {
+			var z I
+			return z, fmt.Errorf("harness: empty input stream")
+		}
+		return concatI(cs), nil
 	}
 	if strings.Contains(native, "i") {
-		fi = func(ctx context.Context, in M, _ ...lambdaOpt) (M, error) { return f(ctx, in) }
+		fi = func(ctx context.Context, in I, _ ...lambdaOpt) (O, error) { return f(ctx, in) }
 	}
 	if strings.Contains(native, "s") {
-		fs = func(ctx context.Context, in M, _ ...lambdaOpt) (*schema.StreamReader[M], error) {
+		fs = func(ctx context.Context, in I, _ ...lambdaOpt) (*schema.StreamReader[O], error) {
 			o, err := f(ctx, in)
 			if err != nil {
 				return nil, err
 			}
-			return produce(ChunkMap(pat, o)), nil
+			return produce(chunkO(o)), nil
 		}
 	}
 	if strings.Contains(native, "c") {
-		fc = func(ctx context.Context, in *schema.StreamReader[M], _ ...lambdaOpt) (M, error) {
+		fc = func(ctx context.Context, in *schema.StreamReader[I], _ ...lambdaOpt) (O, error) {
 			v, err := collectIn(in)
 			if err != nil {
-				return nil, err
+				var z O
+				return z, err
 			}
 			return f(ctx, v)
 		}
 	}
 	if strings.Contains(native, "t") {
-		ft = func(ctx context.Context, in *schema.StreamReader[M], _ ...lambdaOpt) (*schema.StreamReader[M], error) {
+		ft = func(ctx context.Context, in *schema.StreamReader[I], _ ...lambdaOpt) (*schema.StreamReader[O], error) {
 			v, err := collectIn(in)
 			if err != nil {
 				return nil, err
@@ -130,7 +146,7 @@ func nativeLambda(f func(ctx context.Context, in M) (M, error), native string, p
 			if err != nil {
 				return nil, err
 			}
-			return produce(ChunkMap(pat, o)), nil
+			return produce(chunkO(o)), nil
 		}
 	}
 	l, err := compose.AnyLambda(fi, fs, fc, ft)
@@ -138,6 +154,60 @@ func nativeLambda(f func(ctx context.Context, in M) (M, error), native string, p
 		panic(err)
 	}
 	return l
+}
+
+func concatStrs(cs []string) string { return strings.Join(cs, "") }
+
+// addKeyedLambda adds the node's lambda with the Go types its input/output keys imply:
+// no keys: M → M; OutKey: M → string (+WithOutputKey); InKey: string → M (+WithInputKey); both: string → string.
+func addKeyedLambda(cg *compose.Graph[M, M], n Node, f func(ctx context.Context, in M) (M, error),
+	produce func([]M) *schema.StreamReader[M]) error {
+	pat := n.Chunks
+	chunkM := func(o M) []M { return ChunkMap(pat, o) }
+	chunkS := func(o string) []string { return ChunkStr(pat, o) }
+	// the string a keyed lambda returns: the single value of f's output map
+	val := func(m M) string {
+		for _, v := range m {
+			return fmt.Sprint(v)
+		}
+		return ""
+	}
+	var produceS func([]string) *schema.StreamReader[string]
+	if produce != nil {
+		// route string chunks through the same producer machinery (as single-key maps), then unwrap
+		produceS = func(cs []string) *schema.StreamReader[string] {
+			ms := make([]M, len(cs))
+			for i, c := range cs {
+				ms[i] = M{"_": c}
+			}
+			return schema.StreamReaderWithConvert(produce(ms), func(m M) (string, error) { return fmt.Sprint(m["_"]), nil })
+		}
+	}
+	switch {
+	case n.InKey == "" && n.OutKey == "":
+		return cg.AddLambdaNode(n.Key, nativeLambdaG(f, n.Native, chunkM, ConcatChunks, produce))
+	case n.InKey == "" && n.OutKey != "":
+		g := func(ctx context.Context, in M) (string, error) {
+			o, err := f(ctx, in)
+			if err != nil {
+				return "", err
+			}
+			return val(o), nil
+		}
+		return cg.AddLambdaNode(n.Key, nativeLambdaG(g, n.Native, chunkS, ConcatChunks, produceS), compose.WithOutputKey(n.OutKey))
+	case n.InKey != "" && n.OutKey == "":
+		g := func(ctx context.Context, in string) (M, error) { return f(ctx, M{n.InKey: in}) }
+		return cg.AddLambdaNode(n.Key, nativeLambdaG(g, n.Native, chunkM, concatStrs, produce), compose.WithInputKey(n.InKey))
+	default:
+		g := func(ctx context.Context, in string) (string, error) {
+			o, err := f(ctx, M{n.InKey: in})
+			if err != nil {
+				return "", err
+			}
+			return val(o), nil
+		}
+		return cg.AddLambdaNode(n.Key, nativeLambdaG(g, n.Native, chunkS, concatStrs, produceS), compose.WithInputKey(n.InKey), compose.WithOutputKey(n.OutKey))
+	}
 }
 
 // ParadigmResult is the outcome of one calling paradigm, canonicalised.
@@ -237,6 +307,57 @@ func AssignNatives(r *vh.Rand, g *Graph) {
 	}
 }
 
+// AssignKeys gives some tag nodes an output key and/or an input key. An input key is one
+// that a predecessor's output is likely to carry (its node key or output key); rarely a
+// missing one.
+func AssignKeys(r *vh.Rand, g *Graph) {
+	outKeyOf := map[string]string{}
+	for i := range g.Nodes {
+		n := &g.Nodes[i]
+		if n.Body.Op == "tag" && r.Chance(30) {
+			n.OutKey = fmt.Sprintf("k%d", r.Intn(4))
+		}
+		if n.OutKey != "" {
+			outKeyOf[n.Key] = n.OutKey
+		} else {
+			outKeyOf[n.Key] = n.Key
+		}
+		if n.Body.Op == "graph" {
+			AssignKeys(r, n.Body.G)
+		}
+	}
+	for i := range g.Nodes {
+		n := &g.Nodes[i]
+		if n.Body.Op != "tag" || !r.Chance(25) {
+			continue
+		}
+		var preds []string
+		for _, e := range g.Edges {
+			if e[1] == n.Key {
+				if e[0] == "start" {
+					preds = append(preds, "in")
+				} else if g.nodeOp(e[0]) == "tag" {
+					preds = append(preds, outKeyOf[e[0]])
+				}
+			}
+		}
+		if len(preds) == 0 || r.Chance(8) {
+			n.InKey = "missing"
+			continue
+		}
+		n.InKey = preds[r.Intn(len(preds))]
+	}
+}
+
+func (g *Graph) nodeOp(key string) string {
+	for _, n := range g.Nodes {
+		if n.Key == key {
+			return n.Body.Op
+		}
+	}
+	return ""
+}
+
 func SortedKeys(m map[string]*ParadigmResult) []string {
 	var ks []string
 	for k := range m {
@@ -244,4 +365,9 @@ func SortedKeys(m map[string]*ParadigmResult) []string {
 	}
 	sort.Strings(ks)
 	return ks
+}
+
+// nativeLambda: the M → M instance (kept for the other files of this package).
+func nativeLambda(f func(ctx context.Context, in M) (M, error), native string, pat []int, produce func([]M) *schema.StreamReader[M]) *compose.Lambda {
+	return nativeLambdaG(f, native, func(o M) []M { return ChunkMap(pat, o) }, ConcatChunks, produce)
 }
